@@ -16,7 +16,8 @@ Theorem C10_deep_binary_application_is_a_homomorphism :
   (forall a, R a a) -> (forall a b, R a b -> R b a) -> (forall a b c, R a b -> R b c -> R a c) ->
   (forall k a a' b b', R a a' -> R b b' -> R (binf C k a b) (binf C k a' b')) ->
   (forall k a a', R a a' -> R (unf C k a) (unf C k a')) ->
-  (forall k, tflagged tb k -> forall a b c, R (binf C k (binf C k a b) c) (binf C k a (binf C k b c))) ->
+  wf_table tb = true ->
+  (forall k, comm_of tb k = true -> forall a b c, R (binf C k (binf C k a b) c) (binf C k a (binf C k b c))) ->
   forall (a b : deepex D) (name : str) (k : nat),
   find_op name tb 0 = Some k -> is_bin tb k = true ->
   dindexed (tflagged tb) (dvars a) a -> dindexed (tflagged tb) (dvars b) b ->
@@ -34,7 +35,7 @@ Theorem C10_deep_unary_application_is_a_homomorphism :
   (forall a, R a a) -> (forall a b, R a b -> R b a) -> (forall a b c, R a b -> R b c -> R a c) ->
   (forall k a a' b b', R a a' -> R b b' -> R (binf C k a b) (binf C k a' b')) ->
   (forall k a a', R a a' -> R (unf C k a) (unf C k a')) ->
-  (forall k, tflagged tb k -> forall a b c, R (binf C k (binf C k a b) c) (binf C k a (binf C k b c))) ->
+  (forall k, comm_of tb k = true -> forall a b c, R (binf C k (binf C k a b) c) (binf C k a (binf C k b c))) ->
   forall (a : deepex D) (name : str) (k : nat),
   find_op name tb 0 = Some k -> has_un tb k = true -> dindexed (tflagged tb) (dvars a) a ->
   exists e, operate_unary C tb a name = Ok e /\ dindexed (tflagged tb) (dvars a) e /\
